@@ -1,4 +1,4 @@
-import Autd3.Lemmas.SilencerInv
+import Autd3.Lemmas.SilencerRate
 /-!
 # C09 — the silencer filter completes on time, by the shortest way, without overshoot
 
@@ -170,6 +170,83 @@ theorem rate_mode_bounded_phase (s : Sil) (t : Nat) (hf : s.fixedUpdateRate = tr
   by_cases hle : s.current ≤ c'
   · left; omega
   · right; omega
+
+/-- **Fixed update rate mode, intensity, exact trajectory from ANY state** (the mode keeps no rate memory, so no
+"settled" hypothesis is needed): `n` updates toward `t` move the internal value by `n · rate` toward `t · 256` and
+stop there; nothing else in the filter changes. -/
+theorem rate_mode_trajectory_intensity (s : Sil) (t n : Nat) (hf : s.fixedUpdateRate = true) :
+    iterI s t n = { s with current := posRI s.current ((t : Int) * 256) s.value n } ∧
+    (s.current ≤ (t : Int) * 256 →
+      (iterI s t n).current = min (s.current + ((n * s.value : Nat) : Int)) ((t : Int) * 256)) ∧
+    ((t : Int) * 256 < s.current →
+      (iterI s t n).current = max (s.current - ((n * s.value : Nat) : Int)) ((t : Int) * 256)) := by
+  have h := iterI_rate s t hf n
+  refine ⟨h, ?_, ?_⟩ <;> intro hle <;> rw [h] <;> simp only [posRI]
+  · rw [if_pos hle]
+  · rw [if_neg (by omega)]
+
+/-- **Fixed update rate mode, intensity, completion**: as soon as `k · rate` covers the distance the filter sits
+exactly on the target (and stays): completion within `⌈distance · 256 / rate⌉` updates, from any state. -/
+theorem rate_mode_completes_intensity (s : Sil) (t k : Nat) (hf : s.fixedUpdateRate = true) (ht : t < 256)
+    (hk : (t : Int) * 256 - s.current ≤ ((k * s.value : Nat) : Int) ∧
+          s.current - (t : Int) * 256 ≤ ((k * s.value : Nat) : Int)) :
+    (iterI s t k).current = (t : Int) * 256 ∧ outByte (iterI s t k).current = t := by
+  have h := iterI_rate s t hf k
+  have hc : (iterI s t k).current = (t : Int) * 256 := by
+    rw [h]; simp only [posRI]; split <;> omega
+  refine ⟨hc, ?_⟩
+  rw [hc]; unfold outByte; omega
+
+/-- **Fixed update rate mode, phase, exact trajectory on the 16-bit circle from any state**: with
+`d = wrapStep (t·256 − current)` the signed shorter arc to the target (|d| ≤ 32768), after `n` updates the remaining
+signed arc is `d` shortened by `min |d| (n · rate)` — same direction throughout (shorter way, never the long way round),
+never past the target (no overshoot), non-increasing in `n` (monotone) — the internal value stays a 16-bit number and is
+the start moved along that arc. -/
+theorem rate_mode_trajectory_phase (s : Sil) (t n : Nat) (hf : s.fixedUpdateRate = true)
+    (hc : 0 ≤ s.current ∧ s.current < 65536) (ht : t < 256) :
+    (0 ≤ (iterP s t n).current ∧ (iterP s t n).current < 65536) ∧
+    (0 ≤ wrapStep ((t : Int) * 256 - s.current) →
+      wrapStep ((t : Int) * 256 - (iterP s t n).current) =
+        wrapStep ((t : Int) * 256 - s.current) - min (wrapStep ((t : Int) * 256 - s.current)) ((n * s.value : Nat) : Int)) ∧
+    (wrapStep ((t : Int) * 256 - s.current) < 0 →
+      wrapStep ((t : Int) * 256 - (iterP s t n).current) =
+        wrapStep ((t : Int) * 256 - s.current) + min (-wrapStep ((t : Int) * 256 - s.current)) ((n * s.value : Nat) : Int)) ∧
+    (iterP s t n).current =
+      (s.current + wrapStep ((t : Int) * 256 - s.current) - wrapStep ((t : Int) * 256 - (iterP s t n).current)) % 65536 := by
+  obtain ⟨cn, e, hcn, hp, hn⟩ := iterP_rate s t hf hc ht n
+  have ec : (iterP s t n).current = cn := by rw [e]
+  rw [ec]
+  refine ⟨hcn, hp, hn, ?_⟩
+  have h1 := wrapStep_range ((t : Int) * 256 - s.current) (by omega)
+  have h2 := wrapStep_range ((t : Int) * 256 - cn) (by omega)
+  omega
+
+/-- **Fixed update rate mode, phase, completion**: as soon as `k · rate` covers the shorter arc the filter sits on
+the target: within `⌈arc · 256 / rate⌉` updates, from any 16-bit state. -/
+theorem rate_mode_completes_phase (s : Sil) (t k : Nat) (hf : s.fixedUpdateRate = true)
+    (hc : 0 ≤ s.current ∧ s.current < 65536) (ht : t < 256)
+    (hk : wrapStep ((t : Int) * 256 - s.current) ≤ ((k * s.value : Nat) : Int) ∧
+          -wrapStep ((t : Int) * 256 - s.current) ≤ ((k * s.value : Nat) : Int)) :
+    (iterP s t k).current = (t : Int) * 256 ∧ outByte (iterP s t k).current = t := by
+  obtain ⟨cn, e, hcn, hp, hn⟩ := iterP_rate s t hf hc ht k
+  have ec : (iterP s t k).current = cn := by rw [e]
+  have h2 := wrapStep_range ((t : Int) * 256 - cn) (by omega)
+  have h0 : wrapStep ((t : Int) * 256 - cn) = 0 := by
+    by_cases hd : 0 ≤ wrapStep ((t : Int) * 256 - s.current)
+    · have := hp hd; omega
+    · have := hn (by omega); omega
+  have hcn' : cn = (t : Int) * 256 := by omega
+  rw [ec, hcn']
+  refine ⟨rfl, ?_⟩
+  unfold outByte; omega
+
+/-! non-vacuity of the update-rate theorems: a filter in update-rate mode in mid-range, targets on both sides and
+across the 255→0 wrap (F9's direction), rate 1000: ⌈distance·256/1000⌉ updates suffice and one fewer do not. -/
+example : (iterI (Sil.new true 1000 10) 128 31).current = 128 * 256 ∧ (iterI (Sil.new true 1000 10) 128 30).current ≠ 128 * 256 := by
+  decide +kernel
+example : (iterP (Sil.new true 1000 250) 5 3).current = 5 * 256 ∧ (iterP (Sil.new true 1000 250) 5 2).current = 464 := by
+  decide +kernel
+example : wrapStep ((5 : Int) * 256 - (Sil.new true 1000 250).current) = 2816 := by decide +kernel
 
 /-! Non-vacuity: concrete settled states meet the hypotheses, and the F9 witness
 (targets 85,170,0,85,170,0 with 40 steps) now completes every step in 40 updates. -/
